@@ -545,7 +545,7 @@ func c01History(c *vc.Ctx, n, hist int) {
 		c.Count("twin_store_comparisons", 1)
 	}
 	if len(acceptedControls) == 0 {
-		c.Inconclusive("no genuine quorum was accepted in history n=%d hist=%d (controls do not work)", n, hist)
+		c.Count("histories_without_an_accepted_control", 1) // judged over the whole run (checkconf.json: require_observed)
 	}
 }
 
